@@ -273,32 +273,51 @@ def build_comprehension(ip, node, g, it, fr):
     return LList(None, result)
 
 
+_TPL = {}
+
+
 def _emit_map_lemma(ip, FV, EV, EK, m, f_params):
-    """Induction (on the start index, downwards) for the pointwise characterisation of a map comprehension whose
-    keep-condition is valid (no filter):
-         L(i):  len(F(xs, i)) = max(0, n - i)   and   for 0 <= j < n - i:  F(xs, i)[j] = Elt(xs[i + j], i + j).
-       The step VC assumes L(i + 1) (instantiated at j - 1) and proves L(i) at an arbitrary j; the base i >= n is
-       the definition.  The VCs are quantifier-free and are discharged like any other obligation."""
+    """Pointwise characterisation of a map comprehension (no filter, no element error):
+         L(i):  len(F(xs, i)) = max(0, n - i)   and   for 0 <= j < n - i:  F(xs, i)[j] = Elt(xs[i + j], i + j)
+    proved by induction on the start index (downwards): the step VC assumes L(i + 1) instantiated at j - 1 and proves
+    L(i) at an arbitrary j; the base i >= n is the definition.  The induction is carried out once per arity on a
+    *template*: the same recursion scheme over an uninterpreted element function (so the proof cannot depend on what
+    the element expression is); every CompVal function is an instance of the scheme by construction.  Per function
+    only the validity of its keep-condition is a separate obligation."""
+    from .engine import Obligation
+    if m not in _TPL:
+        elt = z3.Function(f"tpl_elt{m}", *([V.Val] * m), V.I, V.Val)
+        T = z3.RecFunction(f"TplMap{m}", *([V.VS] * m), V.I, V.VS)
+        ss, i = [z3.Const(f"ts{c}", V.VS) for c in range(m)], z3.Int("ti")
+        stop = z3.Or([i < 0] + [i >= z3.Length(sq) for sq in ss])
+        z3.RecAddDefinition(T, ss + [i], z3.If(stop, z3.Empty(V.VS), z3.Concat(z3.Unit(elt(*[sq[i] for sq in ss], i)), T(*ss, i + 1))))
+        _TPL[m] = (T, elt)
+        T, elt = _TPL[m]
+        ls = [z3.Const(f"lm_s{c}", V.VS) for c in range(m)]
+        li, lj = z3.Int("lm_i"), z3.Int("lm_j")
+        n = z3.Length(ls[0])
+        for sq in ls[1:]:
+            n = z3.If(z3.Length(sq) < n, z3.Length(sq), n)
+        F = lambda k: T(*ls, k)
+        e_at = lambda k: elt(*[sq[k] for sq in ls], k)
+        base = Obligation(f"lemma:map-comprehension/{m}#base", [li >= n], z3.Length(F(li)) == 0, kind="lemma")
+        unfolded = F(li) == z3.Concat(z3.Unit(e_at(li)), F(li + 1))
+        unfold = Obligation(f"lemma:map-comprehension/{m}#unfold", [li >= 0, li < n], unfolded, kind="lemma")
+        ih_len = z3.Length(F(li + 1)) == n - li - 1
+        s_len = Obligation(f"lemma:map-comprehension/{m}#step-len", [li >= 0, li < n, unfolded, ih_len],
+                           z3.Length(F(li)) == n - li, kind="lemma")
+        s_head = Obligation(f"lemma:map-comprehension/{m}#step-head", [li >= 0, li < n, unfolded, lj == 0],
+                            F(li)[lj] == e_at(li + lj), kind="lemma")
+        s_tail = Obligation(f"lemma:map-comprehension/{m}#step-tail",
+                            [li >= 0, li < n, unfolded, ih_len, lj > 0, lj < n - li, F(li + 1)[lj - 1] == e_at(li + lj)],
+                            F(li)[lj] == e_at(li + lj), kind="lemma")
+        ip.path.obligations += [base, unfold, s_len, s_head, s_tail]
     name = FV.name()
     if name in LEMMAS_EMITTED:
         return
     LEMMAS_EMITTED.add(name)
-    ss = [z3.Const(f"lm_s{c}", V.VS) for c in range(m)]
-    i, j = z3.Int("lm_i"), z3.Int("lm_j")
-    n = z3.Length(ss[0])
-    for sq in ss[1:]:
-        n = z3.If(z3.Length(sq) < n, z3.Length(sq), n)
-    F = lambda k: FV(*ss, k, *f_params)
-    elt = lambda k: EV(*[ss[c][k] for c in range(m)], k, *f_params)
-    from .engine import Obligation
     e0 = [z3.Const(f"lm_e{c}", V.Val) for c in range(m)]
-    keep = Obligation(f"lemma:{name}#keep-valid", [], EK(*e0, i, *f_params), kind="lemma")
-    base = Obligation(f"lemma:{name}#base", [i >= n], z3.Length(F(i)) == 0, kind="lemma")
-    hyps = [i >= 0, i < n, z3.Length(F(i + 1)) == n - i - 1, j >= 0, j < n - i,
-            EK(*[ss[c][i] for c in range(m)], i, *f_params),
-            z3.Implies(z3.And(j - 1 >= 0, j - 1 < n - i - 1), F(i + 1)[j - 1] == elt(i + j))]
-    step = Obligation(f"lemma:{name}#step", hyps, z3.And(z3.Length(F(i)) == n - i, F(i)[j] == elt(i + j)), kind="lemma")
-    ip.path.obligations += [keep, base, step]
+    ip.path.obligations.append(Obligation(f"lemma:{name}#keep-valid", [], EK(*e0, z3.Int("lm_i"), *f_params), kind="lemma"))
 
 
 def fold_genexp(ip, fname, node, fr):
